@@ -30,8 +30,13 @@ func VerifC07_aggregate_step() {
 	ndAssume(nowMs >= 1)
 	ndAssume(nowMs < 1<<50)
 	bctx := ctx.WithBlockHeight(h).WithBlockTime(time.UnixMilli(nowMs).UTC())
-	pool := []string{ndBech32("repA"), ndBech32("repB")}
-	ndAssume(pool[0] != pool[1])
+	// each round has its own reporters (so that credits can be attributed to a round)
+	pool := []string{ndBech32("repA"), ndBech32("repB"), ndBech32("repC"), ndBech32("repD")}
+	for i := range pool {
+		for j := 0; j < i; j++ {
+			ndAssume(pool[i] != pool[j])
+		}
+	}
 	nq := 1 + ndLen("extraRounds", 1)
 	type round struct {
 		qid      []byte
@@ -67,9 +72,10 @@ func VerifC07_aggregate_step() {
 		must(k.Query.Set(ctx, collections.Join(r.qid, r.id), types.QueryMeta{Id: r.id, Amount: r.tip, Expiration: r.exp, RegistrySpecBlockWindow: 10,
 			QueryData: qd, QueryType: "SpotPrice", CycleList: r.cyc, HasRevealedReports: r.nrep > 0}))
 		for ri := 0; ri < r.nrep; ri++ {
-			addr, err := sdk.AccAddressFromBech32(pool[ri])
+			who := pool[2*qi+ri]
+			addr, err := sdk.AccAddressFromBech32(who)
 			must(err)
-			must(k.Reports.Set(ctx, collections.Join3(r.qid, addr.Bytes(), r.id), types.MicroReport{Reporter: pool[ri], Power: uint64(10 * (ri + 1)), QueryType: "SpotPrice",
+			must(k.Reports.Set(ctx, collections.Join3(r.qid, addr.Bytes(), r.id), types.MicroReport{Reporter: who, Power: uint64(10 * (ri + 1)), QueryType: "SpotPrice",
 				QueryId: r.qid, AggregateMethod: "weighted-median", Value: ndHexVal(nm(nm("value", qi), ri)), Timestamp: time.UnixMilli(1).UTC(), Cyclelist: r.cyc, BlockNumber: uint64(1 + ri)}))
 		}
 		tips = tips.Add(r.tip)
@@ -127,6 +133,24 @@ func VerifC07_aggregate_step() {
 		sum = sum.Add(c.amount)
 	}
 	ndAssert(sum.Equal(math.LegacyNewDecFromInt(expect)), "credits-sum-to-what-was-moved")
+	// time-based rewards go only to cycle-list rounds: the reporters of an aggregated round that is not in the cycle
+	// list are credited exactly that round's tip
+	for qi := 0; qi < nq; qi++ {
+		r := rounds[qi]
+		if !(r.nrep > 0 && r.exp <= uint64(h)) || r.cyc {
+			continue
+		}
+		got := math.LegacyZeroDec()
+		for _, c := range rep.calls {
+			for ri := 0; ri < r.nrep; ri++ {
+				a, _ := sdk.AccAddressFromBech32(pool[2*qi+ri])
+				if c.addr == string(a) {
+					got = got.Add(c.amount)
+				}
+			}
+		}
+		ndAssert(got.Equal(math.LegacyNewDecFromInt(r.tip)), "a-round-outside-the-cycle-list-earns-its-tip-and-no-time-based-reward")
+	}
 }
 
 func must(err error) {
